@@ -978,7 +978,8 @@ def gen_argvs(rng, tool, tier):
         else:
             a[i] = t + rng.choice(["=", "=x", "--", "q", "h"])
         out.append(a)
-    return out
+    # the process runs inside a scratch directory: no token may name a path outside it
+    return [a for a in out if all("/" not in t or t == UNREADABLE or t.endswith("nodir/x") for t in a)]
 
 
 DASHDASH = [["-o=--"], ["-o--"], ["--output=--"], ["-i=--"], ["--input=--"], ["-i--"], ["-qo--"], ["-q", "-o=--", "-i", "-"]]
